@@ -46,7 +46,8 @@ REGS_QUICK = ['al', 'ah', 'ax', 'eax', 'ecx', 'ebp', 'es', 'mm3', 'xmm5', 'st', 
 ADDRS = [dict(base='eax'), dict(base='ebp'), dict(base='esp'), dict(base='ebx', index='esi'), dict(base='ebx', index='esi', scale=4),
          dict(index='esi', scale=8), dict(base='eax', disp=127), dict(base='eax', disp=128), dict(base='eax', disp=-128), dict(base='eax', disp=-129),
          dict(base='ebp', index='ecx', scale=2, disp=0x12345678), dict(disp=0x1234), dict(base='eax', seg='fs'), dict(base='edi', disp=4, seg='es'),
-         dict(base='eax', index='eax', scale=2), dict(base='ebx', index='ebx', scale=4, disp=4), dict(base='edx', index='edx')]
+         dict(base='eax', index='eax', scale=2), dict(base='ebx', index='ebx', scale=4, disp=4), dict(base='edx', index='edx'),
+         dict(base='ebx', index='esi', scale=2, disp=-4)]
 IMMS_FULL = [-129, -128, -1, 0, 1, 127, 128, 255, 256, 32767, 32768, 65535, 65536, 2 ** 31 - 1, 2 ** 31, 2 ** 32 - 1]
 IMMS_QUICK = [-129, -128, -1, 0, 1, 127, 128, 255, 256, 65535, 2 ** 31, 2 ** 32 - 1]
 
@@ -76,6 +77,7 @@ def shapes(tier, arity):
         out.append(MEM(32, base='eax', seg='fs'))
         out.append(MEM(32, base='eax', index='eax', scale=2))
         out.append(MEM(32, base='ebx', index='ebx', scale=4, disp=4))
+        out.append(MEM(32, base='ebx', index='esi', scale=2, disp=-4))
         for v in IMMS_QUICK:
             out.append(IMM(v))
     return out
@@ -233,8 +235,10 @@ def render_operand_styled(o, style):
         s = '[%s]' % (sp + '+' + sp).join(terms)
     elif ds == 'outside':
         s = '%s[%s]' % (_num(disp, style), (sp + '+' + sp).join(terms))
-    elif ds == 'first' and disp >= 0:
+    elif ds == 'first':
         s = '[%s]' % (sp + '+' + sp).join([_num(disp, style)] + terms)
+    elif ds == 'middle' and len(terms) == 2:
+        s = '[%s%s%s]' % (terms[0], (sp + '+' + sp + _num(disp, style)) if disp >= 0 else (sp + '-' + sp + _num(-disp, style)), sp + '+' + sp + terms[1])
     else:
         s = '[%s%s]' % ((sp + '+' + sp).join(terms), (sp + '+' + sp + _num(disp, style)) if disp >= 0 else (sp + '-' + sp + _num(-disp, style)))
     if seg:
@@ -302,8 +306,9 @@ def rewrites(spec):
     for o in ops:
         if o[0] == 'mem' and (o[3] or o[4]) and o[6]:
             out.append(('disp-position', {'disp': 'outside'}))
-            if o[6] > 0:
-                out.append(('disp-position', {'disp': 'first'}))
+            out.append(('disp-position', {'disp': 'first'}))
+            if o[3] and o[4]:
+                out.append(('disp-position', {'disp': 'middle'}))
             break
     for o in ops:
         if o[0] == 'mem' and o[3] and o[4] and o[5] != 1:
